@@ -192,7 +192,64 @@ func c02R1(p *Prog, r *Report) {
 
 // ---- R2 -----------------------------------------------------------------------------------
 
+// c02TrimTiming: the amount of history kept must be the one that held when the block was scanned.
+// A trim that comes after the scan of the same block (before control goes back to the loop that
+// serves requests) may use the current record length; a trim placed before the next block's scan
+// belongs to the previous block and must use an amount noted when that block was scanned, because
+// a change of the record length can have been served in between.
+func c02TrimTiming(p *Prog, r *Report) {
+	seg := p.Func("", "DataStreamProcessor", "processSegment")
+	if seg == nil {
+		return
+	}
+	var scan ssa.Instruction
+	Instrs(seg, func(in ssa.Instruction) {
+		if calleeNamed(in, "TriggerData") {
+			scan = in
+		}
+	})
+	if scan == nil {
+		return
+	}
+	InstrsDeep(seg, 1, func(d DeepInstr) {
+		if len(d.Path) != 0 || !calleeNamed(d.In, "TrimStream", "TrimKeepingN") {
+			return
+		}
+		in := d.In
+		if InstrDominates(scan, in) {
+			return // after this block's scan
+		}
+		r.Fn(FuncName(seg))
+		key := FuncName(seg) + ": a trim placed before the scan keeps the amount noted at the previous scan"
+		cc := CallOf(in)
+		if cc.StaticCallee() != nil && cc.StaticCallee().Name() == "TrimStream" {
+			r.Bad("C02.R2", key, p.InstrPos(in), "the stream is trimmed before the new block is scanned, with the amount computed from the record length as it is now: a shorter record length configured since the previous block was scanned makes the trim discard the tail of that block that was never examined, and a pulse there is lost")
+			return
+		}
+		// TrimKeepingN(x): x must be a field of the processor stored after the scan
+		amt := stripConv(cc.Args[len(cc.Args)-1])
+		_, f, _, okf := FieldOf(amt)
+		if !okf {
+			if call, isCall := amt.(*ssa.Call); isCall && call.Call.StaticCallee() != nil {
+				r.Bad("C02.R2", key, p.InstrPos(in), "the stream is trimmed before the new block is scanned, keeping "+CalleeName(&call.Call)+"() as computed now: a shorter record length configured since the previous block was scanned makes the trim discard the tail of that block that was never examined, and a pulse there is lost")
+				return
+			}
+			r.Unk("C02.R2", key, p.InstrPos(in), "the amount kept by a trim placed before the scan is not a field noted at the previous scan nor a value computed on the spot: not decided")
+			return
+		}
+		noted := false
+		for _, st := range StoresTo(seg, "", f) {
+			if InstrDominates(scan, st) {
+				noted = true
+			}
+		}
+		r.Check(noted, "C02.R2", key, p.InstrPos(in), "the amount is the field "+f+", stored right after the scan of the previous block",
+			"the amount kept ("+f+") is not stored after the scan in "+FuncName(seg)+": it does not reflect the record length under which the previous block was scanned")
+	})
+}
+
 func c02R2(p *Prog, r *Report) {
+	c02TrimTiming(p, r)
 	trim := p.Func("", "DataStreamProcessor", "TrimStream")
 	if trim == nil {
 		r.Unk("C02.R2", "TrimStream", "-", "name-keyed anchor not found")
@@ -522,6 +579,53 @@ func c02R3(p *Prog, r *Report) {
 								}
 								if call, ok := stripConv(e).(*ssa.Call); ok {
 									judgeSite(fn, call, true)
+								} else if missingStart[true] != "" && !siteJudged[true] {
+									// the scan start worked out in the pass itself: it must be at least
+									// NPresamples on every way into the loop (the record cut there reaches
+									// NPresamples back), proven from the conditions each way is taken under;
+									// and it is built on the hold-off reference
+									g := NewGuardCtx(p, fn, nil)
+									npreS := polySym(g.PC.rootName(fn.Params[0]) + ".NPresamples")
+									usesHold := false
+									seenV := map[ssa.Value]bool{}
+									var walk func(v ssa.Value, d int)
+									walk = func(v ssa.Value, d int) {
+										if v == nil || seenV[v] || d > 10 {
+											return
+										}
+										seenV[v] = true
+										if _, f, _, okf := FieldOf(v); okf && f == "LastTrigger" {
+											usesHold = true
+										}
+										if in2, isIn := v.(ssa.Instruction); isIn {
+											var ops []*ssa.Value
+											for _, o := range in2.Operands(ops) {
+												walk(*o, d+1)
+											}
+										}
+									}
+									unproven := ""
+									for k2, e2 := range ph.Edges {
+										pred := ph.Block().Preds[k2]
+										if ph.Block().Dominates(pred) {
+											continue
+										}
+										walk(e2, 0)
+										goal := g.PC.Of(e2).Sub(npreS)
+										if !g.proveOnEdge(goal, false, pred, ph.Block(), pred.Instrs[len(pred.Instrs)-1], 0) {
+											unproven = g.PC.Of(e2).String()
+										}
+									}
+									siteJudged[true] = true
+									key := FuncName(fn) + " scan start"
+									switch {
+									case !usesHold:
+										r.Bad("C02.R3", key, p.InstrPos(ph), "the auto scan does not start from the last trigger (LastTrigger - firstFrameIndex + delay): the delay since the previous trigger is forgotten at every block boundary")
+									case unproven == "":
+										r.OK("C02.R3", key, p.InstrPos(ph), "worked out in the pass: built on LastTrigger and proven >= NPresamples on every way into the loop")
+									default:
+										r.Bad("C02.R3", key, p.InstrPos(ph), "the first candidate of the auto scan, `"+unproven+"`, is not shown to be at least NPresamples by the conditions it is chosen under (it must be the larger of hold-off end and NPresamples): when the delay after the last trigger ends inside the first NPresamples samples that are kept, the record cut there (and the veto scan before it) starts before the beginning of the stream")
+									}
 								}
 							}
 						}
